@@ -5,6 +5,9 @@ tier=${1:-quick}
 cd /verif
 for d in seeded/*/; do
   n=$(basename $d); id=${n%?}
+  # a change can be outside the reach of its own property's check and reported by another one (meta.json: reported_by_check)
+  other=$(python3 -c "import json,sys; print(json.load(open('$d/meta.json')).get('reported_by_check') or '')" 2>/dev/null)
+  [ -n "$other" ] && id=$other
   out=$(tools/trymut.sh $d/patch.diff $id $tier 2>&1)
   if echo "$out" | grep -qi "patch failed"; then echo "$n patch-failed"; continue; fi
   v=$(echo "$out" | grep -c '^VIOLATION')
